@@ -9,7 +9,7 @@ from __future__ import annotations
 
 import ast
 import copy
-from typing import Dict, List, Optional, Tuple
+from typing import Dict, List, Optional, Set, Tuple
 
 import sympy as sp
 
@@ -1481,4 +1481,185 @@ def rule_bpwalk(ctx: Ctx) -> List[Ob]:
             okd = not cfg.exists_path_avoiding(incs[0], head, lambda m: m in reads or m in done_)
         whyd = f"{len(incs)} increment(s) of _i, {len(reads)} read(s) `ibp = sorted_t_idx[_i]` after it"
     obs.append(ob("BPWALK", "each cycle examines the next breakpoint of the sorted order", f, lp, bool(okd), whyd, construct="_i += 1; ibp = sorted_t_idx[_i]"))
+    return obs
+
+
+def _invm_symbolic(f: Func):
+    """(lower, upper) blocks of form_invMfactors as noncommutative sympy expressions, and the relation J J' = T"""
+    R, L, Lt, S, J, Jt = sp.symbols("R L Lt S J Jt", commutative=False)
+    th = sp.Symbol("theta", positive=True)
+    TMAP = {L: Lt, Lt: L, J: Jt, Jt: J}
+    par = {"theta": "theta", "STS": "STS", "L": "L", "D": "D"}
+    need(all(p_ in f.params for p_ in par), "INVMFORM: parameters theta, STS, L, D of form_invMfactors not found")
+    env: Dict[str, object] = {"D": R * R, "L": L, "STS": S, "theta": th}
+    rel = {}
+    sizes: Set[str] = set()
+
+    def tr(x):
+        x = sp.sympify(x)
+        if x.is_Add:
+            return sp.Add(*[tr(a) for a in x.args])
+        if x.is_Mul:
+            c_, nc_ = x.args_cnc()
+            return sp.Mul(*c_) * sp.Mul(*[tr(a) for a in reversed(nc_)])
+        if x.is_Pow:
+            return sp.Pow(tr(x.base), x.exp)
+        return TMAP.get(x, x)
+
+    def mx(e):
+        if isinstance(e, ast.Name):
+            need(e.id in env, f"INVMFORM: unknown name {e.id}")
+            return env[e.id]
+        if isinstance(e, ast.Attribute) and e.attr == "T":
+            return tr(mx(e.value))
+        if isinstance(e, ast.UnaryOp) and isinstance(e.op, ast.USub):
+            return -mx(e.operand)
+        if isinstance(e, ast.BinOp) and isinstance(e.op, ast.MatMult):
+            return mx(e.left) * mx(e.right)
+        if isinstance(e, ast.BinOp) and isinstance(e.op, ast.Mult):
+            return mx(e.left) * mx(e.right)
+        if isinstance(e, ast.BinOp) and isinstance(e.op, ast.Add):
+            return mx(e.left) + mx(e.right)
+        if isinstance(e, ast.BinOp) and isinstance(e.op, ast.Sub):
+            return mx(e.left) - mx(e.right)
+        if isinstance(e, ast.Constant) and isinstance(e.value, (int, float)):
+            return sp.nsimplify(e.value)
+        if isinstance(e, ast.Call):
+            d = dotted(e.func) or ""
+            if d == "np.sqrt" and len(e.args) == 1:
+                v = sp.sympify(mx(e.args[0]))
+                if v == R * R or v == R ** 2:
+                    return R
+                if v == R ** -2:
+                    return R ** -1
+                raise AnalysisError(f"INVMFORM: square root of `{short(e.args[0])}`")
+            if d in ("np.zeros", "np.zeros_like") and e.args:
+                return sp.Integer(0)
+            if d == "np.diag" and len(e.args) == 1 and isinstance(e.args[0], ast.BinOp) and isinstance(e.args[0].op, ast.Div) \
+                    and src(e.args[0].left) in ("1", "1.0") and src(e.args[0].right).replace(" ", "") == "np.diag(D)":
+                return R ** -2
+            if d in ("np.linalg.inv", "sp.linalg.inv") and len(e.args) == 1 and src(e.args[0]) == "D":
+                return R ** -2
+            if d.endswith("cholesky") and e.args:
+                lo = kw(e, "lower") or (e.args[1] if len(e.args) > 1 else None)
+                need(lo is not None and src(lo) == "True", "INVMFORM: cholesky without lower=True")
+                rel[J * Jt] = sp.expand(mx(e.args[0]))
+                return J
+            if d in ("np.hstack", "np.vstack") and len(e.args) == 1 and isinstance(e.args[0], (ast.List, ast.Tuple)):
+                return (d.split(".")[-1],) + tuple(mx(x) for x in e.args[0].elts)
+            if isinstance(e.func, ast.Attribute) and e.func.attr == "dot" and len(e.args) == 1:
+                return mx(e.func.value) * mx(e.args[0])
+        raise AnalysisError(f"INVMFORM: expression `{short(e, 60)}` not understood")
+    rets = [r for r in f.node.body if isinstance(r, ast.Return)]
+    need(len(rets) == 1 and isinstance(rets[0].value, ast.Tuple) and len(rets[0].value.elts) == 2, "INVMFORM: form_invMfactors does not return a pair")
+    for st in f.node.body:
+        if isinstance(st, ast.Expr) and isinstance(st.value, ast.Constant):
+            continue
+        if st is rets[0]:
+            break
+        if isinstance(st, (ast.Assign, ast.AnnAssign)) and getattr(st, "value", None) is not None:
+            tg = st.targets[0] if isinstance(st, ast.Assign) else st.target
+            if isinstance(tg, ast.Name) and src(st.value).replace(" ", "") in ("D.shape[0]", "D.shape[1]", "len(D)"):
+                sizes.add(tg.id)          # a name for the order m of D
+                continue
+            if isinstance(tg, ast.Name):
+                env[tg.id] = mx(st.value)
+                continue
+            # X.flat[::D.shape[0] + 1] = 1 / np.diag(D): X (zeros before) becomes the inverse of the diagonal matrix D
+            if isinstance(tg, ast.Subscript) and isinstance(tg.value, ast.Attribute) and tg.value.attr == "flat" and isinstance(tg.value.value, ast.Name) \
+                    and isinstance(tg.slice, ast.Slice) and tg.slice.lower is None and tg.slice.upper is None and tg.slice.step is not None \
+                    and (src(tg.slice.step).replace(" ", "") in ("D.shape[0]+1", "D.shape[1]+1", "len(D)+1") or
+                         (isinstance(tg.slice.step, ast.BinOp) and isinstance(tg.slice.step.op, ast.Add) and src(tg.slice.step.right) == "1"
+                          and isinstance(tg.slice.step.left, ast.Name) and tg.slice.step.left.id in sizes)) \
+                    and env.get(tg.value.value.id) == 0:
+                v_ = st.value
+                if isinstance(v_, ast.BinOp) and isinstance(v_.op, ast.Div) and src(v_.left) in ("1", "1.0") and src(v_.right).replace(" ", "") in ("np.diag(D)", "D.diagonal()"):
+                    env[tg.value.value.id] = R ** -2
+                    continue
+                if src(v_).replace(" ", "") in ("np.diag(D)", "D.diagonal()"):
+                    env[tg.value.value.id] = R ** 2
+                    continue
+        raise AnalysisError(f"INVMFORM: statement `{short(st, 60)}` not understood")
+
+    def blocks(t):
+        need(isinstance(t, tuple) and t[0] == "hstack" and len(t) == 3 and all(isinstance(c, tuple) and c[0] == "vstack" and len(c) == 3 for c in t[1:]),
+             "INVMFORM: a factor is not hstack([vstack([.., ..]), vstack([.., ..])])")
+        return t[1][1], t[2][1], t[1][2], t[2][2]        # (11, 12, 21, 22)
+    lo, up = blocks(mx(rets[0].value.elts[0])), blocks(mx(rets[0].value.elts[1]))
+    return lo, up, rel, (R, L, Lt, S, th)
+
+
+@rule("INVMSYM", min_instances=3)
+def rule_invmsym(ctx: Ctx) -> List[Ob]:
+    """the two factors returned by form_invMfactors multiply to the inverse middle matrix [[-D, L'], [L, theta S'S]] of the
+    compact representation (with J J' = theta S'S + L D^-1 L' the Cholesky factor), the first is lower and the second upper
+    block triangular; bmv applies them in that order (forward solve with the first, backward solve with the second)"""
+    f = ctx.repo.func("bfgsmats.form_invMfactors")
+    obs: List[Ob] = []
+    lo, up, rel, (R, L, Lt, S, th) = _invm_symbolic(f)
+    tri = sp.simplify(lo[1]) == 0 and sp.simplify(up[2]) == 0
+    obs.append(ob("INVMSYM", "first factor lower, second factor upper block triangular", f, f.node, bool(tri),
+                  f"upper-right block of the first factor: {lo[1]}; lower-left block of the second: {up[2]}", construct="block triangular factors"))
+    P = [lo[0] * up[0] + lo[1] * up[2], lo[0] * up[1] + lo[1] * up[3], lo[2] * up[0] + lo[3] * up[2], lo[2] * up[1] + lo[3] * up[3]]
+    E = [-R * R, Lt, L, th * S]
+    names = ("-D", "L'", "L", "theta S'S")
+    bad = []
+    for nm, p_, e_ in zip(names, P, E):
+        d_ = sp.expand(sp.expand(p_).subs(rel) - e_)
+        if d_ != 0:
+            d_ = sp.expand(sp.expand(p_ - e_).subs(rel))
+        if d_ != 0:
+            bad.append(f"block {nm}: product gives {sp.expand(p_).subs(rel)}")
+    need(len(rel) == 1, "INVMFORM: no Cholesky factorisation found in form_invMfactors")
+    obs.append(ob("INVMSYM", "the factors multiply to [[-D, L'], [L, theta S'S]]", f, f.node, not bad,
+                  "all four blocks agree (J J' = " + str(list(rel.values())[0]) + ")" if not bad else "; ".join(bad), construct="factor product"))
+    # bmv: forward solve with factor 0 (lower), then backward solve with factor 1
+    g = ctx.repo.func("bfgsmats.bmv")
+    rets = [r for r in walk_no_nested(g.node) if isinstance(r, ast.Return) and r.value is not None]
+    need(len(rets) == 1, "INVMFORM: bmv has no single return")
+    from ..flow import Expander
+    e = Expander(ctx, g).expand_at(rets[0], rets[0].value)
+    fp, vp = g.params[0], g.params[1]
+    if isinstance(e, ast.Name) and all(isinstance(s_, (ast.Assign, ast.Return, ast.Expr, ast.AnnAssign)) for s_ in g.node.body):
+        # straight-line chain  p = v; p = solve(F0, p); p = solve(F1, p); return p : substitute forward
+        from ..flow import _Subst as _FS
+        vals: Dict[str, ast.expr] = {}
+        for s_ in g.node.body:
+            if isinstance(s_, (ast.Assign, ast.AnnAssign)) and getattr(s_, "value", None) is not None:
+                t_ = s_.targets[0] if isinstance(s_, ast.Assign) else s_.target
+                if isinstance(t_, ast.Name):
+                    import copy as _cp
+                    vals[t_.id] = _FS(dict(vals)).visit(_cp.deepcopy(s_.value))
+        if e.id in vals:
+            e = vals[e.id]
+
+    def solve(c):
+        if isinstance(c, ast.Call) and (dotted(c.func) or "").endswith("solve_triangular") and len(c.args) >= 2:
+            lo_ = kw(c, "lower")
+            tr_ = kw(c, "trans")
+            return src(c.args[0]).replace(" ", ""), c.args[1], (lo_ is not None and src(lo_) == "True"), (tr_ is None or src(tr_) in ("0", "'N'", '"N"'))
+        return None
+    outer = solve(e)
+    okb, whyb = False, f"returns {short(e, 80)}"
+    if outer is not None:
+        inner = solve(outer[1])
+        if inner is not None:
+            okb = inner[0] == f"{fp}[0]" and inner[2] and inner[3] and src(inner[1]) == vp and outer[0] == f"{fp}[1]" and not outer[2] and outer[3]
+            whyb = f"inner solve with {inner[0]} (lower={inner[2]}) on {short(inner[1])}, outer solve with {outer[0]} (lower={outer[2]})"
+    if not okb and isinstance(rets[0].value, ast.Name):
+        # loop form: p = v; for factor, is_lower in zip(invMfactors, (True, False)): p = solve_triangular(factor, p, lower=is_lower)
+        pn = rets[0].value.id
+        loops = [s_ for s_ in g.node.body if isinstance(s_, ast.For)]
+        inits = [s_ for s_ in g.node.body if isinstance(s_, ast.Assign) and src(s_.targets[0]) == pn and src(s_.value) == vp]
+        if len(loops) == 1 and inits and isinstance(loops[0].target, ast.Tuple) and len(loops[0].target.elts) == 2 \
+                and isinstance(loops[0].iter, ast.Call) and dotted(loops[0].iter.func) == "zip" and len(loops[0].iter.args) == 2 \
+                and src(loops[0].iter.args[0]) == fp and src(loops[0].iter.args[1]).replace(" ", "") in ("(True,False)", "[True,False]") \
+                and len(loops[0].body) == 1:
+            fa_, lo_ = src(loops[0].target.elts[0]), src(loops[0].target.elts[1])
+            b_ = loops[0].body[0]
+            sv = solve(b_.value) if isinstance(b_, ast.Assign) and src(b_.targets[0]) == pn else None
+            if sv is not None and sv[0] == fa_ and src(sv[1]) == pn and sv[3] and kw(b_.value, "lower") is not None and src(kw(b_.value, "lower")) == lo_:
+                okb = True
+                whyb = f"for {fa_}, {lo_} in zip({fp}, (True, False)): {pn} = solve_triangular({fa_}, {pn}, lower={lo_}) starting from {vp}"
+    obs.append(ob("INVMSYM", "bmv solves with the lower factor first, then with the upper one", g, rets[0], okb, whyb, construct="bmv: U^-1 (L^-1 v)"))
     return obs
